@@ -234,7 +234,44 @@ def run_vector_sort(chk, spec):
 		chk.fail("sorting a sorted vector changes nothing", "vector-sort/not-idempotent", f"{spec!r}: {got!r} then {o2!r}")
 
 
-RUNNERS = {"table_sort": run_table_sort, "vector_sort": run_vector_sort}
+def run_sort_history(chk, spec):
+	"""one long-lived table: sort it, write its key cells k times in place (through the column vector, the table cell, a row), sort it again ...
+	every sort is judged on the contents at that moment"""
+	import random
+	rng = random.Random(spec["seed"])
+	n = spec["n"]
+	dom = spec["dom"]
+	keys = [rng.choice(dom) for _ in range(n)]
+	t = Table([Vector(list(keys), name="k"), Vector([rng.choice([1, 2]) for _ in range(n)], name="g"), Vector(list(range(100, 100 + n)), name="__id")])
+	for rnd, writes in enumerate(spec["writes"]):
+		names, cols = J.cells(t)
+		rev, na_last, by = spec["reverse"], spec["na_last"], spec["by"]
+		keycols = [cols[names.index(b)] for b in by]
+		arg = by if spec["key_form"] == "name" else [t[b] for b in by]
+		o = call(lambda: t.sort_by(arg if len(by) > 1 else arg[0], reverse=rev, na_last=na_last))
+		chk.judged("resort", ("sort-history", rnd, tuple(by), rev, na_last, writes))
+		if not o.ok:
+			chk.fail("sort_by sorts every admissible input", f"table-sort/raises/{type(o.exc).__name__}", f"{spec!r} round {rnd}: {o!r}")
+			return
+		on, oc = J.cells(o.value)
+		ids = cols[2]
+		if not check_sorted(chk, "table-sort/after-writes", spec, J.rows_from(cols, n), keycols, list(ids), J.rows_from(oc, len(oc[0]) if oc else 0), 2, [rev] * len(by), na_last):
+			return
+		for _ in range(writes):
+			i = rng.randrange(n)
+			val = rng.choice(dom)
+			via = rng.choice(["view", "view-attr", "cell", "cell-name"])
+			if via == "view":
+				call(lambda: t.cols()[0].__setitem__(i, val))
+			elif via == "view-attr":
+				call(lambda: t.k.__setitem__(i, val))
+			elif via == "cell":
+				call(t.__setitem__, (i, 0), val)
+			else:
+				call(t.__setitem__, (i, "k"), val)
+
+
+RUNNERS = {"table_sort": run_table_sort, "vector_sort": run_vector_sort, "sort_history": run_sort_history}
 RUNNERS["recompute"] = recompute.runner("C14")
 
 SORT_DOMAINS = {
@@ -318,6 +355,11 @@ def run(chk):
 						"scalar_by": idx % 2 == 0, "by_container": "list", "id_first": False}, "table-sort-exhaustive")
 					if n:
 						chk.case("vector_sort", {"values": list(keys), "reverse": reverse, "na_last": na_last, "kind": "int", "name": [None, "nm"][idx % 2]}, "vector-sort-exhaustive")
+	for _ in range(250 if chk.quick() else 2000):
+		dom = rng.choice([[1, 2, 3, 4, 5, None], ["a", "b", "c", "d"], [0.5, 1.5, -2.0, 3.25, None], [5, 4, 3, 2, 1]])
+		by = rng.choice([["k"], ["k"], ["g", "k"]])
+		chk.case("sort_history", {"seed": rng.randrange(10**9), "n": rng.choice([3, 4, 6, 9]), "dom": dom, "by": by, "reverse": rng.random() < 0.4, "na_last": rng.random() < 0.6,
+			"key_form": rng.choice(["name", "vector"]), "writes": [rng.choice([1, 2, 2, 3, 4]) for _ in range(rng.choice([2, 3, 4]))]}, "sort-history")
 	for _ in range(800 if chk.quick() else 5000):
 		chk.case("table_sort", gen_sort_spec(rng, max_rows=rng.choice([6, 12]) if chk.quick() else rng.choice([6, 12, 60, 300])), "table-sort-sampled")
 	for _ in range(500 if chk.quick() else 3000):
